@@ -122,8 +122,13 @@ static void stage_corpus(Run &R) {
     while (std::getline(f, line)) { if (line.empty()) continue; if ((int) (n++ % R.a.nworkers) != R.a.worker) continue; if (!run_one(R, line)) return; }
 }
 
+#ifndef VF_FUZZ
 int main(int argc, char **argv) {
     return std_main(argc, argv, "C10", {{"tlds", stage_tlds}, {"scripts", stage_scripts}, {"random", stage_random}, {"corpus", stage_corpus}},
         [](Run &R, const Case &c) { return check_one(R, c.getb("domain")); }, [] { return g_case; },
         [](Run &R) { K_ = new Core(&dflt_api); return K_->init(R.a.datadir); }, [] { delete K_; });
 }
+#else
+VF_FUZZ_TARGET("C10", [](Run &R) { K_ = new Core(&dflt_api); return K_->init(R.a.datadir); },
+    [](Run &R, const uint8_t *d, size_t n) -> std::optional<Failure> { Bytes x = fuzz_bytes(d, n); if (x.empty()) return std::nullopt; R.sample("fuzz", show(x.substr(0, 80)), 4); return check_one(R, x); })
+#endif
